@@ -137,7 +137,7 @@ def v1_doc(sc, work):
         pr["release_frequency"] = pval(fv, fv["freq"])
     files = dict(particle_release_file=os.path.join(work, "r.rls"), output_file=os.path.join(work, "OUTNAME"))
     where = files if fv.get("v1files") else None          # version 1 accepts the forcing / grid file names in its `files` section as well
-    gf = dict(module=sc.get("usermod") or "ladim1.gridforce.ROMS")
+    gf = dict(module=sc.get("usermod") or ("ladim.gridforce.ROMS" if fv.get("v1mod") == "ladim" else "ladim1.gridforce.ROMS"))     # both names occur in version 1 files
     (where if where is not None else gf)["input_file"] = os.path.join(work, "f_*.nc" if fv["wildcard"] else first_file(sc))
     if fv["gridsec"] == "explicit":
         (where if where is not None else gf)["gridfile"] = os.path.join(work, "grid_only.nc")
@@ -145,7 +145,7 @@ def v1_doc(sc, work):
         gf["subgrid"] = list(sc["subgrid_v"])
     extra = (["age"] + (["temp"] if fv.get("xforce") else [])) if fv.get("ibm") else []
     if fv.get("xforce") and fv.get("ibm"):
-        gf["extra_forcing"] = ["temp"]
+        gf["ibm_forcing" if fv.get("v1xf") == "ibm_forcing" else "extra_forcing"] = ["temp"]      # the documented version 1 key is ibm_forcing
     ov = dict(outper=pval(fv, sc["dt"] * sc["ops"]), format="NETCDF4", instance=["pid", "X", "Y", "Z"] + extra, age=dict(ncformat="f8", long_name="age"), temp=dict(ncformat="f8", long_name="temp"), particle=(["release_time"] + (["farmid"] if fv["extracol"] else [])) if fv["pvars"] else [],
               pid=dict(ncformat="i4", long_name="pid"), X=dict(ncformat="f8", long_name="X"), Y=dict(ncformat="f8", long_name="Y"), Z=dict(ncformat="f8", long_name="Z"),
               release_time=dict(ncformat="f8", long_name="particle release time", units="seconds since reference_time"), farmid=dict(ncformat="i4", long_name="farm"))
@@ -309,6 +309,8 @@ def scenario(rng):
     fv["timeform"] = rng.choice(["str", "str", "native"])
     fv["perform"] = rng.choice(["int", "int", "list", "iso"])
     fv["vform"] = rng.choice(["int", "float", "str"])
+    fv["v1mod"] = rng.choice(["ladim1", "ladim"])
+    fv["v1xf"] = rng.choice(["extra_forcing", "ibm_forcing"])
     if fv["xforce"]:
         base["hasscal"] = True
     base["fv"] = fv
